@@ -138,7 +138,11 @@ def gen_page(rng, ctx, zalloc, with_zid=True, sections=True):
         # legal skeleton: first header H1 or H2, each next level <= previous + 1
         level = rng.choice([1, 2])
         for _ in range(rng.randint(1, 4)):
-            lines.append(H_MARK[level] + " " + " ".join([rng.choice(["Sec", "Part", "Topic"]) + str(rng.randint(1, 9))] + deco(rng, ctx, 0.4)))
+            name = rng.choice(["Sec", "Part", "Topic"]) + str(rng.randint(1, 9))
+            if rng.random() < 0.3:
+                # titles of which one is a word-wise prefix of another (grouping labels that only differ by a suffix)
+                name = rng.choice(["Home", "Home Office", "Home Office Desk", "Home P1", "Home -"])
+            lines.append(H_MARK[level] + " " + " ".join([name] + deco(rng, ctx, 0.4)))
             if rng.random() < 0.5:
                 lines.append("")
             emit_blocks(2)
